@@ -399,8 +399,19 @@ fn strategy(t: Tier) -> BoxedStrategy<Case> {
         // absolute, anywhere in the admissible range
         1 => gen::logu(-14.0, -6.0).prop_map(|m| (m, true)),
     ];
-    (any::<bool>(), coef_vec(max_len), coef_vec(max_len), tol, (gen::fl(-3.0, 3.0), gen::fl(-3.0, 3.0)), (gen::fl(-0.7, 0.7), gen::fl(-0.7, 0.7)), prop_oneof![Just(0usize), 0usize..40, 0usize..900])
-        .prop_map(|(complex, a, b, (tol, tol_abs), scalar, x, dft_extra)| {
+    // one case in twelve: a loose user tolerance 10^[-6,-1] and one operand a constant (or the leading coefficient of a
+    // short operand) just below it - "zero by tolerance" must not be confused with "contributes nothing"
+    let below_tol = prop_oneof![11 => Just(None), 1 => (gen::logu(-6.0, -1.0), gen::fl(0.05, 0.9), 0u8..3, any::<bool>()).prop_map(Some)];
+    (any::<bool>(), coef_vec(max_len), coef_vec(max_len), tol, (gen::fl(-3.0, 3.0), gen::fl(-3.0, 3.0)), (gen::fl(-0.7, 0.7), gen::fl(-0.7, 0.7)), prop_oneof![Just(0usize), 0usize..40, 0usize..900], below_tol)
+        .prop_map(|(complex, mut a, mut b, (mut tol, mut tol_abs), scalar, x, dft_extra, below)| {
+            if let Some((t, frac, keep, left)) = below {
+                tol = t;
+                tol_abs = true;
+                let small = (t * frac, if complex { -0.5 * t * frac } else { 0.0 });
+                let v = if left { &mut a } else { &mut b };
+                v.truncate(1 + keep as usize);
+                *v.last_mut().unwrap() = small;
+            }
             let dft_extra = dft_extra.min(1024usize.saturating_sub(a.len()));
             Case { complex, a, b, tol, tol_abs, scalar, x, dft_extra }
         })
@@ -421,7 +432,7 @@ pub fn run(opts: &Opts) -> i32 {
     }
     spec.cases = opts.tier.pick(60_000, 2_000_000);
     spec.essential = vec![("fft", 0.4), ("complex", 0.3), ("degree-claim", 0.2), ("linear-path", 0.03), ("scalar-path", 0.03)];
-    spec.rule = "generated: pairs of coefficient vectors of length 1..41 (quick) / 1..129 (thorough), magnitudes 10^[-3,3] with random signs, shapes dense/sparse/palindromic/tiny-trailing/tiny-leading, lengths biased to 1,2,3 and 2^k-1,2^k,2^k+1; real and complex; zero tolerance either 10^[0.5,4] x ((16+N) eps |a|_1 |b|_1) or absolute 10^[-14,-6]. Oracle: naive O(n^2) coefficient algebra in the harness; +,-,neg,scalar ops through every owned/borrowed/assigning form within 4 eps relative; products (8 forms incl. commuted and assigning) within (16+N) eps |a|_1|b|_1 + 1.5 tol (N = FFT size), degree = sum of degrees when noise < tol < |lead|/2, pointwise product; dft = values at roots of unity (either orientation) and idft(dft(p)) = p. Non-trivial = both operands of length >= 3 (FFT path) or complex field. Distinct = distinct case JSON.".into();
+    spec.rule = "generated: pairs of coefficient vectors of length 1..41 (quick) / 1..129 (thorough), magnitudes 10^[-3,3] with random signs, shapes dense/sparse/palindromic/tiny-trailing/tiny-leading, lengths biased to 1,2,3 and 2^k-1,2^k,2^k+1; real and complex; zero tolerance either 10^[0.5,4] x ((16+N) eps |a|_1 |b|_1) or absolute 10^[-14,-6]; one case in twelve has a loose absolute tolerance 10^[-6,-1] with one operand a constant (or short) whose leading coefficient lies just below it. Oracle: naive O(n^2) coefficient algebra in the harness; +,-,neg,scalar ops through every owned/borrowed/assigning form within 4 eps relative; products (8 forms incl. commuted and assigning) within (16+N) eps |a|_1|b|_1 + 1.5 tol (N = FFT size), degree = sum of degrees when noise < tol < |lead|/2, pointwise product; dft = values at roots of unity (either orientation) and idft(dft(p)) = p. Non-trivial = both operands of length >= 3 (FFT path) or complex field. Distinct = distinct case JSON.".into();
     spec.assumptions = vec!["naive harness product error (<= (n+m) eps |a|_1|b|_1) is inside the 64 eps allowance".into()];
     spec.max_shrink_iters = 2000;
     run_spec(spec, opts)
